@@ -151,3 +151,36 @@ pub proof fn bpow_is_pow2(i: nat)
 {
     if i > 0 { bpow_is_pow2((i-1) as nat); pow2_64(); pow2_add(64, (64 * (i - 1)) as nat); assert(64 + 64 * (i - 1) == 64 * i); }
 }
+
+/// changing limb k changes the value by (x - s[k]) * B^k
+pub proof fn val_update(s: Seq<u64>, k: nat, x: u64, n: nat)
+    requires k < n, n <= s.len()
+    ensures val(s.update(k as int, x), n) + (s[k as int] as nat) * bpow(k) == val(s, n) + (x as nat) * bpow(k)
+    decreases n
+{
+    let t = s.update(k as int, x);
+    if n == k + 1 {
+        val_frame(s, t, k);
+    } else {
+        val_update(s, k, x, (n - 1) as nat);
+        assert(t[n - 1] == s[n - 1]);
+    }
+}
+
+/// p odd, p | 2d  ==>  p | d
+pub proof fn lemma_halve(d: int, p: int)
+    requires p > 0, p % 2 == 1, (2 * d) % p == 0
+    ensures d % p == 0
+{
+    let q = (2 * d) / p; let h = p / 2;
+    vstd::arithmetic::div_mod::lemma_fundamental_div_mod(2 * d, p);
+    assert(2 * d == p * q);
+    assert(p == 2 * h + 1);
+    assert(p * q == 2 * (h * q) + q) by(nonlinear_arith) requires p == 2 * h + 1;
+    let q2 = d - h * q;
+    assert(q == 2 * q2);
+    assert(p * q == 2 * (p * q2)) by(nonlinear_arith) requires q == 2 * q2;
+    assert(d == p * q2);
+    vstd::arithmetic::div_mod::lemma_mod_multiples_basic(q2, p);
+    assert(p * q2 == q2 * p) by(nonlinear_arith);
+}
